@@ -327,7 +327,18 @@ Definition succession_ok (d : disk) (b : block) : bool :=
 Definition store_batch (b : block) (ws : list wr) : batch :=
   WState (Some (b_id b)) :: map (fun f => WAdd f b) all_fams ++ [WHeight (Some (b_num b))] ++ ws.
 
+(* RevertHead of both state backends (blockchain/statebackend/{deprecated,statebackend}.go): state revert,
+   deleteBlockContent, then — since the repair findings/C05-snapshot-invalidated-by-revert.patch —
+   core.DeleteRunningEventFilter ON THE REVERT'S OWN BATCH (the persisted running-filter snapshot describes
+   a chain that contains the reverted block; deleting an absent key is a no-op), then OnReorgWithBatch (ws). *)
 Definition revert_batch (hb : block) (ws : list wr) : batch :=
+  WState (if b_num hb =? 0 then None else Some (b_parent hb))
+  :: map (fun f => WDel f (b_num hb) (b_id hb)) all_fams
+  ++ [WHeight (if b_num hb =? 0 then None else Some (b_num hb - 1)); WSnapDel] ++ ws.
+
+(* the revert batch BEFORE that repair: the snapshot is left alone (kept for the refutation witness
+   C05_stale_snapshot_before_fix_refuted only) *)
+Definition revert_batch_before_fix (hb : block) (ws : list wr) : batch :=
   WState (if b_num hb =? 0 then None else Some (b_parent hb))
   :: map (fun f => WDel f (b_num hb) (b_id hb)) all_fams
   ++ [WHeight (if b_num hb =? 0 then None else Some (b_num hb - 1))] ++ ws.
@@ -455,30 +466,59 @@ Fixpoint exec_fault (ops : list op) (k : nat) (st : disk * rfilter) : disk * rfi
       else run r (fault_op o k (fst st) (snd st))
   end.
 
-(* ---------- the code BEFORE the repair (kept for the witness C05_crash_index_refuted_before_fix) ----------
-   InitializeRunningEventFilter did not delete the snapshot it read: a Restart committed the optional
-   snapshot and the window writes only. *)
+(* ---------- the code BEFORE the two repairs (kept for refutation witnesses only) ----------
+   (1) revert repair (findings/C05-snapshot-invalidated-by-revert.patch): RevertHead did not delete the
+       persisted snapshot. plan_revert_before_fix = today's code with the old revert batch.
+   (2) consume repair (/repo 1231538): InitializeRunningEventFilter did not delete the snapshot it read: a
+       Restart committed the optional snapshot and the window writes only. plan_before_fix = the code before
+       BOTH repairs (witness C05_crash_index_refuted_before_fix). *)
+Definition plan_revert_before_fix (o : op) (d : disk) (m : rfilter) : list batch * rfilter :=
+  match o with
+  | Revert =>
+      match d_height d with
+      | None => ([], m)
+      | Some h =>
+          match find_num h (d_fam d FSU), header d h with
+          | Some _, Some hb =>
+              match rf_reorg d m with
+              | (Some ws, m') => ([revert_batch_before_fix hb ws], m')
+              | (None, m') => ([], m')
+              end
+          | _, _ => ([], m)
+          end
+      end
+  | _ => plan o d m
+  end.
+
 Definition plan_before_fix (o : op) (d : disk) (m : rfilter) : list batch * rfilter :=
   match o with
   | Restart g =>
       let bs0 := if g && negb (rf_err m) then [[WSnap m]] else [] in
       let d1 := apply_batches d bs0 in
       (bs0 ++ map (fun w => [w]) (reinit_fill_w d1), reinit d1)
-  | _ => plan o d m
+  | _ => plan_revert_before_fix o d m
   end.
 
-Definition step_before_fix (st : disk * rfilter) (o : op) : disk * rfilter :=
-  let (bs, m') := plan_before_fix o (fst st) (snd st) in
+(* step / crash image over an arbitrary plan function *)
+Definition step_with (pl : op -> disk -> rfilter -> list batch * rfilter) (st : disk * rfilter) (o : op)
+  : disk * rfilter :=
+  let (bs, m') := pl o (fst st) (snd st) in
   (apply_batches (fst st) bs, m').
 
-Fixpoint crash_disk_before_fix (ops : list op) (k : nat) (st : disk * rfilter) : disk :=
+Fixpoint crash_disk_with (pl : op -> disk -> rfilter -> list batch * rfilter)
+  (ops : list op) (k : nat) (st : disk * rfilter) : disk :=
   match ops with
   | [] => fst st
   | o :: r =>
-      let bs := fst (plan_before_fix o (fst st) (snd st)) in
-      if Nat.leb (length bs) k then crash_disk_before_fix r (k - length bs) (step_before_fix st o)
+      let bs := fst (pl o (fst st) (snd st)) in
+      if Nat.leb (length bs) k then crash_disk_with pl r (k - length bs) (step_with pl st o)
       else apply_batches (fst st) (firstn k bs)
   end.
+
+Definition step_before_fix := step_with plan_before_fix.
+Definition crash_disk_before_fix := crash_disk_with plan_before_fix.
+Definition step_revert_before_fix := step_with plan_revert_before_fix.
+Definition crash_disk_revert_before_fix := crash_disk_with plan_revert_before_fix.
 
 (* ---------- the property predicates (evaluated by the harness on decoded images) ---------- *)
 Definition in_fam (b : block) (l : list block) : bool := existsb (block_eqb b) l.
@@ -573,10 +613,11 @@ Fixpoint ops_env (ops : list op) (st : disk * rfilter) : bool :=
   | o :: r => op_env (fst st) o && ops_env r (step st o)
   end.
 
-(* no Revert removes a block that a persisted running-filter snapshot covers. Since the repair the
-   snapshot is consumed by the first use of the filter after a restart, so this can only fail for a
-   snapshot written by the RUNNING process (Blockchain.WriteRunningEventFilter called before the end of
-   its life) — see snap_discipline below, which implies it *)
+(* DESCRIPTIVE ONLY since the revert repair (no theorem has it as a hypothesis any more; the harness reports it
+   in its histograms): no Revert removes a block that a persisted running-filter snapshot covers. It fails
+   exactly for a snapshot written by the RUNNING process (Blockchain.WriteRunningEventFilter called before
+   the end of its life) followed by a revert — which is harmless now, because the revert batch deletes the
+   snapshot (revert_batch), and was the registered stale-snapshot finding before (revert_batch_before_fix). *)
 Definition op_fresh (d : disk) (o : op) : bool :=
   match o with
   | Revert => match d_height d, d_snap d with
@@ -592,9 +633,12 @@ Fixpoint ops_fresh (ops : list op) (st : disk * rfilter) : bool :=
   | o :: r => op_fresh (fst st) o && ops_fresh r (step st o)
   end.
 
-(* The snapshot discipline of juno's node: WriteRunningEventFilter is called at shutdown only (node.Run:
-   after every service has stopped), i.e. no block is reverted between a snapshot and the next restart.
-   Purely syntactic: [pending] = a snapshot written by the running process may be on disk. *)
+(* DESCRIPTIVE ONLY since the revert repair (formerly the hypothesis of C05_index). The snapshot discipline of
+   juno's node: WriteRunningEventFilter is called at shutdown only (node.Run: after every service has
+   stopped), i.e. no block is reverted between a snapshot and the next restart.
+   Purely syntactic: [pending] = a snapshot written by the running process may be on disk. The harness uses
+   the flag to count the crash images of histories that violate it (they fall under C05_index like all
+   others) and to name the class of a stale answer on a tree without the repair. *)
 Fixpoint snap_discipline (ops : list op) (pending : bool) : bool :=
   match ops with
   | [] => true
